@@ -57,6 +57,8 @@ class Disc:
 
 
 def _norm_path(p: str) -> str:
+    p = re.sub(r'\([^)]*\)', '()', p)           # Wordnet(<specs>)
+    p = re.sub(r'/[^/]*\|[^/\[{]*', '/<key>', p)  # entity keys "<lexicon spec>|<id>"
     p = re.sub(r'\[[^\]]*\]', '[]', p)
     p = re.sub(r'\d+', '#', p)
     return p
